@@ -601,8 +601,17 @@ func GenStream(d D, o StreamOpts) (*fitmodel.Stream, *GenInfo) {
 			}
 			if !sameLayout && o.DevFields && d.Chance(15, "dev") {
 				def.HasDev = true
-				for k := d.Int(0, 3, "ndev"); k > 0; k-- {
-					def.Dev = append(def.Dev, fitmodel.DevFieldDef{Num: d.Byte("dn"), Size: byte(d.Int(0, 9, "ds")), Idx: d.Byte("di")})
+				bigDev := d.Int(0, 5, "bigdev") == 0
+				ndev := d.Int(0, 4, "ndev")
+				if bigDev {
+					ndev = d.Int(3, 4, "ndevbig")
+				}
+				for k := ndev; k > 0; k-- {
+					sz := d.Int(0, 9, "ds")
+					if bigDev {
+						sz = d.Int(200, 255, "dsbig") // developer payloads beyond any scratch buffer
+					}
+					def.Dev = append(def.Dev, fitmodel.DevFieldDef{Num: d.Byte("dn"), Size: byte(sz), Idx: d.Byte("di")})
 				}
 				info.Labels["dev-fields"]++
 			}
@@ -684,6 +693,11 @@ func drawUnknownFieldDef(d D, n byte) fitmodel.FieldDef {
 		fd.Size = byte(d.Int(0, 12, "usz"))
 	} else {
 		fd.Size = byte(bt.Size * d.Int(1, 3, "uk"))
+	}
+	if d.Int(0, 7, "ubig") == 0 {
+		// occasionally a large field (up to the 255-byte maximum)
+		k := d.Int(1, 255/bt.Size, "ubigk")
+		fd.Size = byte(k * bt.Size)
 	}
 	return fd
 }
